@@ -10,10 +10,10 @@ export CARGO_TARGET_DIR=/tmp/confirm/target CARGO_INCREMENTAL=0 CARGO_NET_OFFLIN
 exec >$OUT.log 2>&1
 set -x
 if [ ! -d $WT ]; then mkdir -p /tmp/confirm; git -C /repo worktree add -q --detach $WT HEAD || exit 2; fi
-cd $WT && git checkout -q --detach $(git -C /repo rev-parse HEAD) && git checkout -q -- . && git clean -fdq
+cd $WT && git reset -q --hard && git checkout -q --detach $(git -C /repo rev-parse HEAD) && git reset -q --hard && git clean -fdq
 PATCH=$SRC/patch.diff
 if ! git apply --check $PATCH; then
-	if git apply --check --3way $PATCH 2>/dev/null; then APPLY="--3way"; else echo "$ID/$N patch_applies=NO" > $OUT.summary; exit 0; fi
+	echo "$ID/$N patch_applies=NO" > $OUT.summary; exit 0
 fi
 # demo placement: from demo.md, default tests/tests/
 DEMO=$(ls $SRC/*.rs | head -1)
@@ -33,6 +33,7 @@ git apply ${APPLY:-} $PATCH
 timeout 1500 cargo test -p $PKG --offline $FEAT --test $TEST > $OUT.demo_patched.log 2>&1; RC_PATCHED=$?
 # existing suite with the patch (demo files removed)
 for f in $SRC/*.rs; do rm -f $DEST/$(basename $f); done
+rm -f /tmp/confirm/repo/target/nextest/pb/junit.xml
 timeout 2400 cargo nextest run --workspace --no-fail-fast --tool-config-file pb:/w/lib/nextest.toml --profile pb --test-threads 8 --offline > $OUT.suite.log 2>&1
 SUITE=$(python3 - <<'PY'
 import json, xml.etree.ElementTree as ET
@@ -49,5 +50,5 @@ missing=sorted(base-ok)
 print(f"{len(base&ok)}/{len(base)}" + ("" if not missing else " MISSING:"+",".join(missing[:3])))
 PY
 )
-git checkout -q -- . && git clean -fdq
+git reset -q --hard && git clean -fdq
 echo "$ID/$N patch_applies=yes demo_clean_rc=$RC_CLEAN demo_patched_rc=$RC_PATCHED suite_with_patch=$SUITE" > $OUT.summary
